@@ -3,6 +3,7 @@ package checks
 import (
 	"verif/internal/doc"
 	"verif/internal/drv"
+	"verif/internal/fw"
 )
 
 // docSets enumerates block selections: every single block, every unordered pair (quick), plus
@@ -67,3 +68,7 @@ func firstDiff(a, b string) string {
 
 // runPath runs a project from a root file path that already exists on disk.
 func runPath(root string, opt drv.Options) drv.Outcome { return drv.RunPath(root, opt) }
+
+// ioFaultHook explores file-system answers (set in the verifio build: the library's os calls are
+// routed through the vio shim).
+var ioFaultHook func(c *fw.Ctx, checkID string)
